@@ -759,7 +759,22 @@ def oracle_C05(objs, st=None, nshifts=2):
     for c, q, cap in objs:
         cid = case_id(c)
         st.distinct.add(json_key(c))
-        for k in sorted(set(int(x) for x in rng.integers(1, q.nphi, size=nshifts))):
+        # shifts: random ones plus the origins that matter for index-sensitive code: the grid point after / at each profile
+        # extremum (extremum lands on the last / first grid point) and the points where the axis normal crosses the +R
+        # direction (quadrant 4 <-> 1 boundary of the helicity counter then falls on the periodic wrap)
+        ks = set(int(x) for x in rng.integers(1, q.nphi, size=nshifts))
+        n_ = q.nphi
+        for prof in (q.R0, -q.elongation, q.L_grad_B):
+            j = int(np.argmin(prof)); ks.add((j + 1) % n_); ks.add(j % n_)
+        nR, nZ = q.normal_cylindrical[:, 0], q.normal_cylindrical[:, 2]
+        quad = np.where(nR >= 0, np.where(nZ >= 0, 1, 4), np.where(nZ >= 0, 2, 3))
+        for j in range(n_):
+            if {int(quad[j]), int(quad[(j + 1) % n_])} == {1, 4}:
+                ks.add((j + 1) % n_)
+        ks.discard(0)
+        if len(ks) > nshifts + 4:
+            ks = set(sorted(ks)[:nshifts + 4])
+        for k in sorted(ks):
             kw = shifted_kwargs(c['kwargs'], q, k)
             try:
                 q2 = build(kw)
@@ -1097,6 +1112,35 @@ def oracle_C13(objs, st=None):
     return st
 
 
+def oracle_C13_synthetic(st, seed, count):
+    """the real `_determine_helicity` on synthetic normals of known winding number, for every placement of the origin"""
+    from qsc.calculate_r1 import _determine_helicity
+    rng = np.random.default_rng(seed + 13)
+    class Fake:
+        pass
+    for t in range(count):
+        n = int(rng.integers(9, 40))
+        w = int(rng.integers(-2, 3))
+        base = rng.uniform(0, 2 * np.pi)
+        wob = 0.3 * np.sin(np.arange(n) * 2 * np.pi / n * int(rng.integers(1, 3)) + rng.uniform(0, 6))
+        ang = base + w * np.arange(n) * 2 * np.pi / n + wob          # resolved: steps well below a quarter turn for |w| <= 2, n >= 9
+        sg, sp = int(rng.choice([-1, 1])), int(rng.choice([-1, 1]))
+        worst = 0.0
+        badk = None
+        for k in range(n):
+            a = np.roll(ang, -k)
+            o = Fake(); o.nphi = n; o.spsi = sp; o.sG = sg
+            o.normal_cylindrical = np.stack([np.cos(a), 0 * a, np.sin(a)], axis=1)
+            _determine_helicity(o)
+            d = abs(o.helicity - sg * sp * w)
+            if d > worst:
+                worst, badk = d, k
+        st.distinct.add(('synthetic-normal', n, w))
+        st.check('helicity = sG spsi x signed turns of the normal per field period', worst, 0.0,
+                 dict(kind='synthetic-normal', kwargs=dict(n=n, winding=w, base=float(base), sG=sg, spsi=sp, seed_index=t, origin=badk)))
+    return st
+
+
 def inverse_series(RBC, RBS, nfp, theta, phi):
     ntor = (RBC.shape[0] - 1) // 2
     out = 0.0
@@ -1382,6 +1426,18 @@ def oracle_newton(st, seed, count):
             f = lambda x: A @ x + 0.3 * np.sin(x) - b; jac = lambda x: (A + 0.3 * np.diag(np.cos(x))) * P; x0 = rng.normal(size=3)
         elif kind == 2:
             f = lambda x: np.array([x[0] * x[0] + 1.0]); jac = lambda x: np.array([[2 * x[0] + 1e-3]]); x0 = np.array([float(rng.normal())])
+        elif kind == 3 and t % 8 == 3:
+            # huge initial residual, geometric decrease, then a stall on a plateau well above 1e4*tol
+            big = 10.0 ** float(rng.uniform(3, 12)); plateau = 10.0 ** float(rng.uniform(-8.5, -3))
+            stream = [big]
+            while stream[-1] * 0.3 > plateau:
+                stream.append(stream[-1] * 0.3)
+            stream += [plateau] * 400
+            cnt = [0]
+            def f(x, stream=stream, cnt=cnt):
+                v = stream[cnt[0]]; cnt[0] += 1
+                return np.array([v])
+            jac = lambda x: np.array([[1.0]]); x0 = np.array([1.0])
         else:
             L = int(rng.integers(1, 30)); stream = list(np.abs(rng.normal(size=L)) * 10.0 ** rng.integers(-12, 2, size=L))
             for k in range(L):
@@ -1400,6 +1456,11 @@ def oracle_newton(st, seed, count):
                 norms, best, warned, xb = corr_hand.newton_trace(f, x0, jac, tol=tol)
         except np.linalg.LinAlgError:
             continue
+        # x_best is identified by value; among the evaluations made at that point take the accepted one (smallest norm)
+        ms = corr_hand.newton_trace.matches
+        if ms:
+            fin = [k for k in ms if norms[k] == norms[k]]
+            best = min(fin, key=lambda k: norms[k]) if fin else ms[0]
         nb = norms[best] if best is not None else float('nan')
         n0 = norms[0]
         worse = (best != 0) and not (nb < n0)
